@@ -449,6 +449,11 @@ impl<Db: KvDatabase> WriteBatch<Db> {
 
     #[must_use]
     pub(crate) const fn epoch(&self) -> Epoch { self.epoch }
+
+    /// Creation order of this batch (verification hook, read-only).
+    #[cfg(feature = "verif")]
+    #[must_use]
+    pub const fn verif_epoch(&self) -> u64 { self.epoch.0 }
 }
 
 impl<Db: KvDatabase> WriteBatch<Db> {
@@ -750,6 +755,9 @@ impl<Db: KvDatabase> WriteBehind<Db> {
         db: &Db,
     ) {
         while let Ok(task) = receiver.recv() {
+            #[cfg(feature = "verif")]
+            crate::verif::set_serializing_epoch(Some(task.write_buffer.epoch().0));
+
             let mut serialization_buffer = db.serialization_buffer();
             task.write_buffer.write_to_db(&mut serialization_buffer);
 
